@@ -276,9 +276,17 @@ package rules
 //@   ensures ret1 == nil ==> typeIs(ret0, compositeMatcher)
 //@   ensures ret1 == nil && len(hosts) == 0 ==> len(unbox(ret0, compositeMatcher)) == 0
 //@   ensures ret1 == nil && len(hosts) > 0 ==> len(unbox(ret0, compositeMatcher)) == 1
+//@   ensures ret1 == nil && len(hosts) > 1 ==> typeIs(unbox(ret0, compositeMatcher)[0], *hostMatcher) && typeIs(unbox(unbox(ret0, compositeMatcher)[0], *hostMatcher).typedMatcher, anyOfMatcher) && len(unbox(unbox(unbox(ret0, compositeMatcher)[0], *hostMatcher).typedMatcher, anyOfMatcher)) == len(hosts)
 
 // glob expressions are compiled for the separator of their use (host: '.', path segment: '/')
 //@ func newGlobMatcher
 //@   props C03
 //@   ensures ret1 == nil ==> gcomp.n == old(gcomp.n) + 1 && gcomp.arg0[old(gcomp.n)] == pattern && len(gcomp.arg1[old(gcomp.n)]) == 1 && gcomp.arg1[old(gcomp.n)][0] == separator
 //@   ensures ret1 == nil ==> typeIs(ret0, *globMatcher) && unbox(ret0, *globMatcher) != nil && unbox(ret0, *globMatcher).compiled == gcomp.ret0[old(gcomp.n)]
+
+// any-of over typed matchers: accepts a value exactly when one of its members does
+//@ func (anyOfMatcher).match
+//@   props C03
+//@   ensures !ret0 ==> forall i int :: 0 <= i && i < len(m) ==> !tmMatches(old(m[i]), value)
+//@   ensures ret0 ==> 0 <= tm.n - old(tm.n) - 1 && tm.n - old(tm.n) - 1 < len(m) && tmMatches(before(m[tm.n - old(tm.n) - 1]), value)
+//@   loop 0 invariant idx + 1 <= len(m) && tm.n == old(tm.n) + idx + 1 && forall i int :: 0 <= i && i <= idx ==> !tmMatches(old(m[i]), value)
